@@ -569,9 +569,10 @@ PARTS = [
 
 MANIFEST = {
     "text": "Exhaustive over all 333,339 literal strings of length 1..3 (both tiers) and generated literals up to length 40 "
-            "alone and around real parts, for the v2 and the legacy compiler, plus a CLI sample (update, grep): the "
+            "alone and around real parts (also the same part twice), for the v2 and the legacy compiler, plus a CLI sample "
+            "(update, grep) and an exhaustive sweep of `grep` over every position of the matching line(s) in files of 1-6 lines: the "
             "compiled regex must be a pure literal (regex AST) and must match exactly where the text occurs.",
     "note": "Alphabet is printable ASCII without upper-case letters; a backslash directly before a bracket is not "
             "expressible and excluded. Recorded/fixed findings about '|', backslash, inner '^'/'$': known_findings.json F7*.",
-    "technique": "exhaustive enumeration + property-based testing (Hypothesis); regex-AST and behavioural (reference matcher) oracles",
+    "technique": "exhaustive enumeration + property-based testing (Hypothesis); regex-AST and behavioural (reference matcher) oracles; plus coverage-guided fuzzing (atheris/libFuzzer) of the same byte decoder and oracle",
 }
